@@ -22,7 +22,7 @@ def is_socket_read(name):
     return False
 
 
-def producers(body, operand, depth=0, seen=None):
+def producers(body, operand, depth=0, seen=None, stop_at_calls=True):
     """the calls / coroutine aggregates whose result an operand carries (through moves, refs and pass-through wrappers)"""
     seen = seen if seen is not None else set()
     out = []
@@ -41,22 +41,25 @@ def producers(body, operand, depth=0, seen=None):
         if t.k == "call" and t.dest is not None and t.dest.local == l:
             n = strip_generics(t.callee.path or "")
             if n in PASS_THROUGH and t.args:
-                out.extend(producers(body, t.args[0], depth + 1, seen))
+                out.extend(producers(body, t.args[0], depth + 1, seen, stop_at_calls))
             else:
                 out.append(("call", bi, t))
+                if not stop_at_calls:
+                    for o in t.args:
+                        out.extend(producers(body, o, depth + 1, seen, stop_at_calls))
         for s in blk.stmts:
             if s.k == "assign" and s.place.local == l:
                 if s.rv.k == "agg" and s.rv.j.get("ak") in ("closure", "coroutine", "coroutine_closure"):
                     out.append(("agg", bi, s.rv.j["def"]))
                     continue
                 for o in s.rv.ops:
-                    out.extend(producers(body, o, depth + 1, seen))
+                    out.extend(producers(body, o, depth + 1, seen, stop_at_calls))
                 if s.rv.place is not None and s.rv.place.local != l:
                     o = _O()
                     o.kind = "copy"
                     o.place = s.rv.place
                     o.const = None
-                    out.extend(producers(body, o, depth + 1, seen))
+                    out.extend(producers(body, o, depth + 1, seen, stop_at_calls))
     return out
 
 
@@ -99,6 +102,38 @@ def chase_field(body, operand, pred, depth=0, seen=None):
     return False
 
 
+def mentions_timeout_field(f, cg, path, depth=0, seen=None):
+    """does the function (or a helper it calls) read a field whose name says 'timeout'?"""
+    seen = seen if seen is not None else set()
+    if path in seen or depth > 3:
+        return False
+    seen.add(path)
+    b = f.bodies.get(path)
+    if b is None:
+        return False
+    for blk in b.blocks:
+        for s in blk.stmts:
+            if s.k == "assign":
+                pls = [s.rv.place] if s.rv.place is not None else []
+                pls += [o.place for o in s.rv.ops if o.place is not None]
+                if any(any("timeout" in x for x in pl.fields()) for pl in pls):
+                    return True
+    return any(mentions_timeout_field(f, cg, y, depth + 1, seen) for y in cg.edges.get(path, ()))
+
+
+def from_timeout_field(f, cg, body, operand):
+    """the duration derives from a configured timeout field — directly, or through a helper of the crate that reads one"""
+    pred = lambda fl: bool(fl) and "timeout" in fl[-1]
+    if chase_field(body, operand, pred):
+        return True
+    for kind, _bi, x in producers(body, operand, stop_at_calls=False):
+        if kind == "call":
+            for tgt in cg.targets(x.callee):
+                if tgt in f.bodies and mentions_timeout_field(f, cg, tgt):
+                    return True
+    return False
+
+
 def bounded_reads(ctx):
     """walk the connection task's call graph; a future handed to tokio::time::timeout (and everything it runs) is
     'bounded'. Returns {'reads': [(body path, span, bounded)], 'timeouts': [(body path, span, duration_ok)]}"""
@@ -124,7 +159,7 @@ def bounded_reads(ctx):
         for bi, t in b.calls():
             n = strip_generics(t.callee.path or "")
             if n in TIMEOUTS and len(t.args) >= 2:
-                dur_ok = chase_field(b, t.args[0], lambda fl: bool(fl) and "timeout" in fl[-1])
+                dur_ok = from_timeout_field(f, cg, b, t.args[0])
                 timeouts.append((bp, t.span, dur_ok))
                 for kind, pbi, x in producers(b, t.args[1]):
                     if kind == "agg":
@@ -179,3 +214,68 @@ def rule_bounded_reads(rep, ctx, prefix=""):
     for bp, span, dur_ok in r["timeouts"]:
         rep.check(dur_ok, prefix + "timeout-duration@%s" % bp.replace("memcrs::", ""), "timeout duration <- a configured *timeout* field", "the duration of a timeout in %s does not derive from a configured timeout field (a constant or unrelated value bounds the wait)" % bp, loc_s(span))
     return rep
+
+
+def plumbing(ctx):
+    """How the server configuration reaches its consumers, composed through the public constructors and entry points:
+    MemcacheTcpServer::new(config, store) -> run() builds each Client -> Client::handle.  Everything is expressed in terms
+    of the fields of the MemcacheServerConfig value (identified by the position of its public constructor's parameters),
+    so neither helper functions nor private field names in between matter."""
+    if "conntask.plumbing" in ctx._cache:
+        return ctx._cache["conntask.plumbing"]
+    from bufmodel import BUF_MODELS
+    from rules.storefacts import field_of
+
+    f = ctx.facts
+    out = {"server": None, "client_new_args": None, "client": None, "timeout_durations": [], "listen_args": [], "sem_new_args": []}
+    nb = f.one(SERVER + "::new")
+    servers = [p.ret for p in Interp(f).run(nb, [P("config"), P("store")]) if isinstance(p.ret, Struct)]
+    if len(servers) != 1:
+        ctx._cache["conntask.plumbing"] = out
+        return out
+    S = servers[0]
+    out["server"] = S
+    for x in atoms(tform(S)):
+        if isinstance(x, tuple) and x and x[0] == "call" and x[1] == "tokio::sync::Semaphore::new":
+            out["sem_new_args"].append(x[3][0] if x[3] else None)
+    RUN = SERVER + "::run::{closure#0}"
+    rb = f.one(RUN)
+
+    def pol(body, a):
+        if body.path == CLIENT + "::new" or body.path.startswith(CLIENT + "::handle"):
+            return "opaque"
+        return "inline"
+
+    caps = [S if c_["name"] == "self" else P(c_["name"]) for c_ in rb.captures] or [S]
+    cn_args = []
+    for p in Interp(f, loop_bound=1, policy=pol).run(rb, [ClosureV(RUN, caps, "coroutine"), P("cx")]):
+        for e in p.events:
+            if e.kind == "call" and e.name == CLIENT + "::new":
+                cn_args.append(e.args)
+            if e.kind == "call" and e.name.endswith("Socket::listen"):
+                out["listen_args"].append(e.args[1] if len(e.args) > 1 else None)
+    if not cn_args:
+        ctx._cache["conntask.plumbing"] = out
+        return out
+    out["client_new_args"] = cn_args[0]
+    cb = f.one(CLIENT + "::new")
+    clients = [p.ret for p in Interp(f, models=BUF_MODELS).run(cb, list(cn_args[0])) if isinstance(p.ret, Struct)]
+    if len(clients) != 1:
+        ctx._cache["conntask.plumbing"] = out
+        return out
+    C = clients[0]
+    out["client"] = C
+    HL = HANDLE + "::{closure#0}"
+    hb = f.one(HL)
+
+    def pol2(body, a):
+        if body.path.startswith(CONN + "::") or body.path.startswith(HANDLER + "::"):
+            return "opaque"
+        return "inline"
+
+    for p in Interp(f, loop_bound=1, policy=pol2).run(hb, [ClosureV(HL, [C], "coroutine"), P("cx")]):
+        for e in p.events:
+            if e.kind == "call" and strip_generics(e.name) in TIMEOUTS:
+                out["timeout_durations"].append(e.args[0])
+    ctx._cache["conntask.plumbing"] = out
+    return out
